@@ -239,7 +239,7 @@ def _strategy(tier):
         kw = draw(st.sampled_from(KW[cname]))
         n = draw(st.integers(1, 25 if tier == "thorough" else 10))
         ops = [[draw(st.sampled_from(["url", "lru", "list", "item"])), draw(url), draw(st.integers(1, 5))] for _ in range(n)]
-        queries = draw(st.lists(url, min_size=4, max_size=12)) + [o[1] for o in ops[:5]] + [o[1] + "/deeper" for o in ops[:3]]
+        queries = draw(st.lists(url, min_size=4, max_size=12)) + [o[1] for o in ops[:5]] + [o[1].rstrip("/") + "/deeper" for o in ops[:3]]
         return {"kind": "lrutrie_history", "cls": cname, "suffix_aware": draw(st.booleans()), "kwargs": kw,
                 "ops": ops, "queries": queries, "every_step": True}
     return hist()
